@@ -43,6 +43,11 @@ class Check(c01.Check):
                 if ln == 0:
                     p['surely_valid'] = False
             cases.append(p)
+        # the name length limit itself: a plain definition under names of 1, 31, 32, 254 and 255 characters
+        for ln in (1, 31, 32, 254, 255):
+            cases.append({'name': ''.join(rng.choice(NAME_CHARS) for _ in range(ln)), 'params': [], 'surely_valid': True,
+                          'events': [{'t': 'atom', 'cls': 'SinOsc', 'ctor': 'ar', 'ins': [['n', 440, 1], ['n', 0, 1]]},
+                                     {'t': 'out', 'cls': 'Out', 'mode': 'auto', 'bus': ['n', 0, 1], 'chans': [['r', 0, 0]]}]})
         return cases
 
     def extra_static(self):
@@ -67,7 +72,7 @@ class Check(c01.Check):
         sigs.append([[f'n{k}', None, k % 5] for k in range(rng.choice([40, 120, 255]))])
         # in half of the definitions the output bus is one of the scalar parameters: the reader must
         # name that parameter as the starting channel of the output
-        bus, inbus = {}, {}
+        bus, inbus, outcls = {}, {}, {}
         for i, sig in enumerate(sigs):
             scal = [name for name, rate, d in sig if not isinstance(d, list) and rate in (None, 'kr', 'ir')]
             if scal and rng.random() < 0.5:
@@ -77,7 +82,10 @@ class Check(c01.Check):
             if rng.random() < 0.4:
                 src = rng.choice(scal) if scal and rng.random() < 0.5 else str(rng.choice([0, 0, 2, 5, 16]))
                 inbus[str(i)] = [src, rng.choice([1, 1, 2, 4]), rng.choice(['kr', 'ar'])]
-        res, err = common.run_impl('c01', 'desc_probe', {'sigs': sigs, 'bus': bus, 'inbus': inbus}, timeout=900)
+                outcls[str(i)] = rng.choice(['Out', 'Out', 'ReplaceOut', 'OffsetOut', 'XOut', 'LocalOut'])
+                if outcls[str(i)] == 'OffsetOut' and inbus[str(i)][2] == 'kr':
+                    outcls[str(i)] = 'Out'
+        res, err = common.run_impl('c01', 'desc_probe', {'sigs': sigs, 'bus': bus, 'inbus': inbus, 'outcls': outcls}, timeout=900)
         if res is None:
             self.notes.append('desc probe failed: ' + err[-300:])
             return []
@@ -110,7 +118,7 @@ class Check(c01.Check):
         # rate constraints of every unit class: each constructor argument given a signal of the other rate;
         # the forms the reference lists as rejected (because of the rate) must still be rejected
         import json as _json
-        rref = {tuple(x) for x in _json.loads((common.VERIF / 'harness/c02_rate_ref.json').read_text())}
+        rref = {(x[0], x[1], x[2]) for x in _json.loads((common.VERIF / 'harness/c02_rate_ref.json').read_text())}
         rc, err = common.run_impl('c01', 'rate_constraint_probe', {'mode': 'nrt'}, timeout=1800)
         if rc is None:
             self.notes.append('rate-constraint probe failed: ' + err[-300:])
@@ -120,6 +128,8 @@ class Check(c01.Check):
                 name, ctor, k, status = row[:4]
                 if status == 'compiled' and (name, ctor, k) in rref:
                     other = 'control' if ctor == 'ar' else 'audio'
+                    if isinstance(k, str):
+                        other, k = 'number instead of a signal (scalar', k[:-1] + ')'
                     out.append({'what': f'{name}.{ctor}(…) with a {other}-rate signal as argument {k}: this input must run at the '
                                         'unit\'s rate; the graph was compiled to bytes instead of rejected',
                                 'signature': f'c02:input-rate-accepted:{name}', 'case': {'class': name, 'ctor': ctor, 'arg': k}})
@@ -157,7 +167,8 @@ class Check(c01.Check):
                         break
             if not problem and r.get('has_gate') != any(name == 'gate' for name, _, _ in sig):
                 problem = f'gate flag read back as {r.get("has_gate")}'
-            if not problem and r.get('out_start') != [bus.get(str(si), '0')]:
+            oc = outcls.get(str(si), 'Out')
+            if not problem and oc != 'LocalOut' and r.get('out_start') != [bus.get(str(si), '0')]:
                 problem = (f'output unit writes to bus {bus.get(str(si), "0")!r} (a parameter name or a literal number); the reader '
                            f'recovers starting channel {r.get("out_start")}')
             ib = inbus.get(str(si))
@@ -165,8 +176,8 @@ class Check(c01.Check):
                 rn = {'kr': 'control', 'ar': 'audio'}[ib[2]]
                 if r.get('ins') != [[rn, ib[1], ib[0], 'In']]:
                     problem = f'input unit In.{ib[2]}({ib[0]}, {ib[1]}): the reader recovers {r.get("ins")}'
-                elif r.get('outs') != [[rn, ib[1], 'Out']]:
-                    problem = f'output unit Out.{ib[2]} with {ib[1]} channel(s): the reader recovers {r.get("outs")}'
+                elif r.get('outs') != [[rn, ib[1], oc]]:
+                    problem = f'output unit {oc}.{ib[2]} with {ib[1]} channel(s): the reader recovers {r.get("outs")}'
             elif not problem and not ib and r.get('ins'):
                 problem = f'no input unit in the definition; the reader recovers {r.get("ins")}'
             if problem:
@@ -190,6 +201,9 @@ class Check(c01.Check):
                             'signature': 'c02:invalid-accepted'}
         if io.get('has_nan'):
             return {'what': 'emitted definition carries a NaN constant', 'signature': 'c02:nan-constant'}
+        if canon.startswith('ERR') and case.get('surely_valid') and len(case['name']) <= 255 and not io.get('skip'):
+            return {'what': f'well-formed graph function named with {len(case["name"])} characters did not compile: {canon} {io.get("detail", "")}',
+                    'signature': 'c02:valid-rejected:' + canon[4:]}
         if not canon.startswith('OK'):
             return None
         if io.get('out_nonaudio'):
